@@ -680,6 +680,11 @@ func osfsEngine(c *Ctx) {
 	// own name `lnk2`, `up` vs `up2` — each shorter name a link to the outside, met inside the longer one's target
 	corpus = append(corpus, []osNode{{"dir", 'd', ""}, {"dir/l", 'L', "../di/secret"}, {"di", 'L', "@OUT@"}, {"lnk2", 'L', "lnk"}, {"lnk", 'L', "@OUT@/secret"},
 		{"up2", 'L', "up/x"}, {"up", 'L', "../../.."}, {"d", 'd', ""}, {"d/sub", 'd', ""}, {"d/sub/l1", 'L', "../../d/su/secret"}, {"d/su", 'L', "@OUT@"}})
+	// link texts that name a missing node and then climb further than they descended: ENOENT for the kernel, whatever lies
+	// lexically beyond (the decoys one and two levels above the base)
+	corpus = append(corpus, []osNode{{"secret", 'f', ""}, {"l1", 'L', "nx/../../secret"}, {"l2", 'L', "nx/../../../secret"}, {"d", 'd', ""},
+		{"d/l1", 'L', "nx/../../../secret"}, {"l3", 'L', "/nx/../../secret"}, {"l4", 'L', "d/nx/../../../secret"}, {"sub", 'L', "nx/../.."},
+		{"l5", 'L', "nx/ny/../../../../secret"}})
 	// link targets longer than NAME_MAX (up to PATH_MAX is legal): 267 bytes relative, 268 absolute, one in a chain
 	{
 		a, b, cc := strings.Repeat("a", 100), strings.Repeat("b", 100), strings.Repeat("c", 60)
